@@ -1,4 +1,5 @@
 mod bdd_rec;
+mod pure_rec;
 mod vec_replay;
 mod sat_rec;
 mod sdd_rec;
@@ -16,6 +17,9 @@ fn main() {
         (Some("record"), Some("sdd")) => sdd_rec::record(&args),
         (Some("record"), Some("sat")) => sat_rec::record_sat(&args),
         (Some("record"), Some("topdown")) => sat_rec::record_topdown(&args),
+        (Some("record"), Some("cnf")) => pure_rec::record_cnf(&args),
+        (Some("record"), Some("orders")) => pure_rec::record_orders(&args),
+        (Some("record"), Some("semiring")) => pure_rec::record_semiring(&args),
         (Some("record"), Some("table")) => tables::record_table(&args),
         (Some("replay"), Some("bddvec")) => vec_replay::replay_bddvec(&args),
         (Some("replay"), Some("sddvec")) => vec_replay::replay_sddvec(&args),
